@@ -26,6 +26,14 @@ key).  HISTORIES of 1..3 consecutive logins on ONE Connection object are
 enumerated (same / different server ids, logins that reach play and logins
 the server ends right after the encryption response, the server key sent in
 its canonical or in another loadable encoding), every login judged.
+
+Part 3 (the hash that is actually POSTED).  The same kind of logins with a
+REAL AuthenticationToken whose HTTP layer is a recording stand-in: the session
+service answers the join of a login with 204, with 403 (then grants or refuses
+a token refresh, should the client ask for one), or with 500.  Every serverId
+that reaches the stand-in, on every attempt of every login, must be the
+reference hash of (server id, that login's secret, key bytes); whether the
+client retries at all is not judged.
 """
 import base64
 import hashlib
@@ -74,14 +82,16 @@ RULE = ('Every server id of length 0..2 (quick) / 0..3 (thorough) over a '
         'next login follows directly), thorough also "kick" = an encrypted '
         'login Disconnect after the encryption response.  Server ids: A = '
         '"srv", B = U+00E9 U+20AC U+1F600, "" (empty), "-" (offline mode), '
-        'S = three seed-chosen symbols of the alphabet above.  Quick (64 '
+        'S = three seed-chosen symbols of the alphabet above, F = U+FEFF '
+        '"srv" (begins with the code point some codecs strip as a byte '
+        'order mark).  Quick (70 '
         'histories with the key sent as canonical SubjectPublicKeyInfo): '
-        'k=1: {A,B,"","-",S} x {play,drop}; k=2: every ordered '
-        'pair of {A,B,"","-"} and (S,S) x first ending {play,drop}, second '
-        'play; k=3: AAA, AAB, ABA, ABB x first two endings {play,drop}^2, '
+        'k=1: {A,B,"","-",S,F} x {play,drop}; k=2: every ordered '
+        'pair of {A,B,"","-"} and (S,S), (F,A), (A,F) x first ending '
+        '{play,drop}, second play; k=3: AAA, AAB, ABA, ABB x first two endings {play,drop}^2, '
         'plus ("-",A,A), (A,"-",A), ("","",""), (A,"",A) all play.  '
         'Thorough: additionally every sequence of length 1..3 over '
-        '{A,B,"","-"} x {play,drop,kick} (1884 histories including those of '
+        '{A,B,"","-"} x {play,drop,kick} (1894 histories including those of '
         'the quick set) and the quick set at protocols 47 and 340.  '
         'Key encodings in SENT: the bytes the server sends as its public '
         'key are chosen PER LOGIN from {spki (canonical), pkcs1, '
@@ -98,7 +108,34 @@ RULE = ('Every server id of length 0..2 (quick) / 0..3 (thorough) over a '
         'be recorded during that login and every recorded argument must '
         'equal the reference hash of (id, the secret the server recovered '
         'in THAT login, key); for "-" a join is not required (pyCraft makes '
-        'none) but any that is made is judged the same way.')
+        'none) but any that is made is judged the same way.  '
+        'POSTED (part 3): the same logins (one 1024-bit key in its canonical '
+        'encoding, server script: encryption request, then login success) '
+        'with a REAL minecraft.authentication.AuthenticationToken (all five '
+        'fields set) whose HTTP layer - the module global `requests` of '
+        'minecraft/authentication.py - is a real requests.Session with a '
+        'recording transport adapter answering from a script.  Session-'
+        'service behaviour of ONE login, from {join204: the join is answered '
+        '204; join403-refresh200-join204: the first join is answered 403 '
+        '(ForbiddenOperationException), a refresh 200 with a new access '
+        'token, any further join 204; join403-refresh403: joins and '
+        'refreshes are answered 403; join500: every join is answered 500 '
+        'with a non-JSON body}.  Histories of 1..3 logins on ONE Connection '
+        'object and ONE token: quick (77 histories, 143 logins): k=1 {A,B,F,"","-"} x the 4 '
+        'behaviours; k=2 (A,A), (A,B), (F,A) x 4 x 4; k=3 (A,A,A) with the '
+        'first two from the three refusing behaviours and the third join204; '
+        'thorough: additionally every sequence of length 1..3 over {A,B,F} x '
+        'the 4 behaviours (F only in first place at length 3) and the quick '
+        'set at protocols 47 and 340.  Every login is one judged case: every '
+        'request whose URL ends in /join or whose JSON body has a serverId, '
+        'on every attempt, must carry a serverId string equal to the '
+        'reference hash of (server id of that login, the secret of that '
+        'login, the key bytes sent); the secret is what the reference server '
+        'recovered from the encryption response or, when the client gave the '
+        'login up before sending it (what the unmodified tree does after a '
+        'refused join), the 16-byte value drawn from the scripted OS random '
+        'source during that login; for an id other than "-" at least one join '
+        'must be posted.  Whether a refused join is retried is NOT judged.')
 ASSUMPTIONS = ['hashlib.sha1 (shared with pyCraft as the platform SHA-1) is '
                'correct; checked against the three published vectors',
                'server ids are Unicode strings without lone surrogates (they '
@@ -108,12 +145,18 @@ ASSUMPTIONS = ['hashlib.sha1 (shared with pyCraft as the platform SHA-1) is '
                'server recovers from the encryption response is the secret of '
                'that login (what C18 decides); the session service is '
                'represented by the join() method of the auth token object '
-               'given to Connection(auth_token=...), so the HTTP request '
-               'built by the real AuthenticationToken.join is not covered '
-               'here: C10 drives it in logins, and C19 judges the body '
-               'posted by every join call, including two overlapping joins '
+               'given to Connection(auth_token=...); the POSTED part uses '
+               'the real AuthenticationToken and reads the serverId out of '
+               'the JSON body that reaches a recording transport adapter of '
+               'the real requests library (nothing else of the request is '
+               'judged here: C19 judges URL, headers and the rest of the '
+               'body of every join call, including two overlapping joins '
                'on one shared token under all schedules with <= 2 '
-               'preemptions (each must post its own server hash)',
+               'preemptions)',
+               'POSTED part: when the client abandons a login before the '
+               'encryption response, the secret of that login is the 16-byte '
+               'value it drew from the scripted OS random source '
+               '(encryption.os.urandom, vf.harness) during that login',
                'a key "as encoded by the server" is the byte string in the '
                'encryption request; the server hashes those bytes (vanilla: '
                'PublicKey.getEncoded() is what it sends), so no '
@@ -379,6 +422,11 @@ def explain(got, cps, sec, key):
                         % (fname, len(alt), len(key)))
     except Exception:
         pass
+    for k in range(1, len(cps) + 1):
+        if got == ref.java_hex(hashlib.sha1(
+                b''.join(map(utf8, cps[k:])) + sec + key).digest()):
+            return ('equals the hash over the server id WITHOUT its first '
+                    '%d character(s) %s' % (k, id_text(cps[:k])))
     sid = ''.join(map(chr, cps))
     for enc in ('latin-1', 'ascii', 'utf-16', 'utf-16-le', 'utf-16-be',
                 'utf-32', 'utf-8-sig', 'cp1252'):
@@ -607,12 +655,15 @@ def _sent_histories_canonical(ctx):
     A, B, E, O = SENT_A, SENT_B, SENT_EMPTY, SENT_OFF
     S = sent_seed_id(ctx.seed)
     quick = []
-    for sid in (A, B, E, O, S):
+    F = SENT_F
+    for sid in (A, B, E, O, S, F):
         for end in ('play', 'drop'):
-            quick.append(((sid, end),))
+            if ((sid, end),) not in quick:
+                quick.append(((sid, end),))
     pairs = [(x, y) for x in (A, B, E, O) for y in (A, B, E, O)]
     if S not in (A, B, E, O):
         pairs.append((S, S))
+    pairs += [(F, A), (A, F)]
     for x, y in pairs:
         for e1 in ('play', 'drop'):
             quick.append(((x, e1), (y, 'play')))
@@ -772,6 +823,8 @@ def judge_sent(ctx, hist, version, useed, cl, encs=None):
             cl[S_NONASCII] += 1
         if not cps:
             cl[S_EMPTY] += 1
+        if cps[:1] == (0xFEFF,):
+            cl['sent: ' + P_FEFF] += 1
         if j >= 1:
             earlier = [h[0] for h in hist[:j]]
             cl[S_SAME if cps in earlier else S_DIFF] += 1
@@ -829,9 +882,389 @@ def judge_sent(ctx, hist, version, useed, cl, encs=None):
     return len(hist)
 
 
+# -- part 3: the hash that is actually POSTED ---------------------------------
+#
+# The same logins with a REAL minecraft.authentication.AuthenticationToken.
+# Its HTTP layer (the module global `requests` of minecraft/authentication.py)
+# is a recording stand-in: a real requests.Session whose transport adapter
+# records every request and answers from a per-login script, so nothing
+# leaves the process.  The session service may refuse a join; whatever the
+# client then does (give up, refresh the token, join again ...) every
+# `serverId` that reaches the stand-in is judged.
+
+P_USER, P_ACCESS, P_CLIENT = 'user@example.org', 'acc-0', 'cli-0'
+P_PROFILE_ID, P_PROFILE_NAME = '0123456789abcdef0123456789abcdef', 'prof'
+_ERR403 = (b'{"error": "ForbiddenOperationException", '
+           b'"errorMessage": "Invalid token."}')
+_REFRESHED = ('{"accessToken": "acc-%d", "clientToken": "' + P_CLIENT +
+              '", "selectedProfile": {"id": "' + P_PROFILE_ID +
+              '", "name": "' + P_PROFILE_NAME + '"}}')
+# session-service behaviour of ONE login: endpoint -> replies in order (the
+# last one repeats).  A reply is (status, body | None = default for status).
+POSTED_BEHAVIOURS = {
+    'join204': {'join': [204]},
+    'join403-refresh200-join204': {'join': [403, 204], 'refresh': [200]},
+    'join403-refresh403': {'join': [403], 'refresh': [403]},
+    'join500': {'join': [500], 'refresh': [200]},
+}
+POSTED_ORDER = ('join204', 'join403-refresh200-join204',
+                'join403-refresh403', 'join500')
+SENT_F = (0xFEFF,) + SENT_A        # begins with U+FEFF (a BOM to some codecs)
+P_SRV = 'posted: secret = what the server recovered from the encryption ' \
+    'response'
+P_DRAW = 'posted: secret = the 16-byte draw from the scripted OS random ' \
+    'source (the encryption response was never sent)'
+P_REUSED = 'posted: login on a Connection object and token whose earlier ' \
+    'login was refused by the session service'
+P_FEFF = 'server id begins with U+FEFF'
+POSTED_REQUIRED = [P_SRV, P_DRAW, P_REUSED, 'posted: ' + P_FEFF,
+                   'sent: ' + P_FEFF] + \
+    ['posted: session service %s' % b for b in POSTED_ORDER]
+
+
+class HttpStandIn(object):
+    """What minecraft.authentication sees as `requests` during one
+    execution.  Everything but the transport is the real library."""
+
+    def __init__(self):
+        import requests
+        import requests.adapters
+        self._real = requests
+        self.log = []               # {'url', 'method', 'body'} per request
+        self.script = {}
+        self.served = {}
+        self.refreshes = 0
+        stand_in = self
+
+        class Adapter(requests.adapters.BaseAdapter):
+            def __init__(self):
+                super(Adapter, self).__init__()
+                self.builder = requests.adapters.HTTPAdapter()
+
+            def send(self, request, **kw):
+                return stand_in._answer(request, self.builder)
+
+            def close(self):
+                pass
+        self._adapter_cls = Adapter
+        self._session = self.Session()
+
+    def Session(self):
+        s = self._real.Session()
+        s.trust_env = False
+        ad = self._adapter_cls()
+        s.mount('https://', ad)
+        s.mount('http://', ad)
+        return s
+
+    session = Session
+
+    def __getattr__(self, name):
+        return getattr(self._real, name)
+
+    def request(self, method, url, **kw):
+        return self._session.request(method=method, url=url, **kw)
+
+    def post(self, url, data=None, json=None, **kw):
+        return self.request('post', url, data=data, json=json, **kw)
+
+    def get(self, url, params=None, **kw):
+        return self.request('get', url, params=params, **kw)
+
+    def begin_login(self, behaviour):
+        self.script = dict((k, list(v))
+                           for k, v in POSTED_BEHAVIOURS[behaviour].items())
+        self.served = {}
+
+    def _answer(self, request, builder):
+        import io
+        import urllib3
+        body = request.body
+        if body is None:
+            body = b''
+        elif isinstance(body, str):
+            body = body.encode('utf-8')
+        elif not isinstance(body, (bytes, bytearray)):
+            body = b''.join(body)
+        url = str(request.url)
+        self.log.append({'method': request.method, 'url': url,
+                         'body': bytes(body)})
+        endpoint = url.split('?')[0].rstrip('/').rsplit('/', 1)[-1]
+        replies = self.script.get(endpoint)
+        if replies:
+            k = self.served.get(endpoint, 0)
+            self.served[endpoint] = k + 1
+            status = replies[min(k, len(replies) - 1)]
+        else:
+            status = {'validate': 204, 'invalidate': 204,
+                      'signout': 204}.get(endpoint, 404)
+        if status == 204:
+            data = b''
+        elif status == 200:
+            self.refreshes += 1
+            data = (_REFRESHED % self.refreshes).encode('ascii')
+        elif status == 403:
+            data = _ERR403
+        elif status == 404:
+            data = b'{"error": "Not Found", "errorMessage": "no such ' \
+                b'endpoint"}'
+        else:
+            data = b'Internal Server Error'
+        hdrs = {}
+        if status != 204:
+            hdrs['Content-Length'] = str(len(data))
+            hdrs['Content-Type'] = 'application/json' if data[:1] == b'{' \
+                else 'text/plain'
+        raw = urllib3.response.HTTPResponse(
+            body=io.BytesIO(data), headers=hdrs, status=status,
+            reason='scripted', preload_content=False, decode_content=False)
+        return builder.build_response(request, raw)
+
+
+def posted_histories(ctx):
+    """-> [(history, protocol version)]; a history is a tuple of (server id
+    code points, session-service behaviour of that login)."""
+    A, B, F = SENT_A, SENT_B, SENT_F
+    beh = POSTED_ORDER
+    quick = []
+    for sid in (A, B, F, SENT_EMPTY, SENT_OFF):
+        for b in beh:
+            quick.append(((sid, b),))
+    for ids in ((A, A), (A, B), (F, A)):
+        for b1 in beh:
+            for b2 in beh:
+                quick.append(((ids[0], b1), (ids[1], b2)))
+    for b1 in beh[1:]:
+        for b2 in beh[1:]:
+            quick.append(((A, b1), (A, b2), (A, 'join204')))
+    out = [(h, 757) for h in quick]
+    if ctx.thorough:
+        seen = set(quick)
+        steps = [(i, b) for i in (A, B, F) for b in beh]
+        for k in (1, 2, 3):
+            for h in itertools.product(steps, repeat=k):
+                if k == 3 and F in (h[1][0], h[2][0]):
+                    continue
+                if h not in seen:
+                    seen.add(h)
+                    out.append((h, 757))
+        out += [(h, v) for v in (47, 340) for h in quick]
+    return out
+
+
+def body_posted(W, hist, version):
+    from vf import harness
+    import minecraft.authentication as A
+    key, der = harness.rsa_key()
+
+    def per_conn(i):
+        cps, _ = hist[min(i, len(hist) - 1)]
+        return {'login': [('encrypt', ''.join(map(chr, cps)), SENT_TOKEN),
+                          ('success',)]}
+    W.serve(rsa=(key, der), per_conn=per_conn)
+    http = HttpStandIn()
+    saved = A.requests
+    A.requests = http
+    try:
+        tok = A.AuthenticationToken(username=P_USER, access_token=P_ACCESS,
+                                    client_token=P_CLIENT)
+        tok.profile.id_, tok.profile.name = P_PROFILE_ID, P_PROFILE_NAME
+        errs = []
+        conn = W.connection(allowed_versions={version}, auth_token=tok,
+                            handle_exception=lambda e, i: errs.append(
+                                '%s: %s' % (type(e).__name__, e)))
+        logins = []
+        for j, (cps, behaviour) in enumerate(hist):
+            http.begin_login(behaviour)
+            r0, u0, e0 = len(http.log), len(W.S.urandom_log), len(errs)
+            raised = None
+            try:
+                conn.connect()
+            except ToolError:
+                raise
+            except Exception as e:
+                raised = '%s: %s' % (type(e).__name__, e)
+            W.settle()
+            rec = {'servers': len(W.servers), 'connect_raised': raised,
+                   'requests': [dict(r) for r in http.log[r0:]],
+                   'draws': [bytes(d) for d in W.S.urandom_log[u0:]],
+                   'errs': list(errs[e0:]), 'der': der}
+            if len(W.servers) == j + 1:
+                srv = W.servers[j]
+                rec.update(secret=srv.secret, state=srv.state,
+                           errors=list(srv.errors), sid_sent=srv.server_id,
+                           der=bytes(srv.rsa[1]))
+            logins.append(rec)
+            if conn.connected or conn.networking_thread is not None:
+                try:
+                    conn.disconnect()
+                except Exception as e:
+                    rec['disconnect_raised'] = type(e).__name__
+                W.settle()
+    finally:
+        A.requests = saved
+    return {'logins': logins}
+
+
+def posted_useed(seed, hist, version):
+    d = hashlib.blake2b(('C17 posted %d %d %r' % (seed, version, hist))
+                        .encode('ascii'), digest_size=4).digest()
+    return int.from_bytes(d, 'big') & 0x7FFFFFFF
+
+
+def posted_text(hist):
+    return ' > '.join('%s/%s' % (id_text(cps), b) for cps, b in hist)
+
+
+def _server_ids_posted(requests_):
+    """-> [(n, url, serverId | None, problem | None)] for every request that
+    is a join (by URL) or carries a serverId."""
+    import json
+    out = []
+    for n, r in enumerate(requests_):
+        is_join = r['url'].split('?')[0].rstrip('/').endswith('/join')
+        try:
+            doc = json.loads(bytes(r['body']).decode('utf-8'))
+        except Exception:
+            doc = None
+        if isinstance(doc, dict) and 'serverId' in doc:
+            out.append((n, r['url'], doc['serverId'], None))
+        elif is_join:
+            out.append((n, r['url'], None, 'the body is not a JSON object '
+                        'with a serverId: %r' % bytes(r['body'])[:80]))
+    return out
+
+
+def judge_posted(ctx, hist, version, useed, cl):
+    from vf import harness
+    x = harness.run(lambda W: body_posted(W, hist, version),
+                    horizon=400000, seed=useed)
+    case = {'kind': 'posted', 'history': [[list(cps), b] for cps, b in hist],
+            'version': version, 'useed': useed}
+    htxt = posted_text(hist)
+    if x.failure is not None:
+        cl['out:posted: history did not run to the end'] += 1
+        ctx.violation('posted %s client %s' % (htxt, x.failure[0]),
+                      'history %s (protocol %d, real AuthenticationToken, '
+                      'recording HTTP stand-in): the client %s: %s'
+                      % (htxt, version, x.failure[0], x.failure[1]), case)
+        return len(hist)
+    for j, ((cps, behaviour), rec) in enumerate(zip(hist,
+                                                    x.result['logins'])):
+        sid = ''.join(map(chr, cps))
+        who = 'login %d of %d (server id %r, session service: %s)' % (
+            j + 1, len(hist), sid, behaviour)
+        if rec['servers'] != j + 1 or 'secret' not in rec:
+            cl['out:posted: login did not take place'] += 1
+            ctx.violation('posted %s no login %d' % (htxt, j + 1),
+                          'history %s (protocol %d): %s did not open a '
+                          'connection (%d so far; connect() raised: %s; '
+                          'client errors %s)'
+                          % (htxt, version, who, rec['servers'],
+                             rec['connect_raised'], rec['errs']), case)
+            continue
+        der = rec['der']
+        idb = b''.join(map(utf8, cps))
+        if rec['secret'] is not None:
+            secrets, src = [rec['secret']], P_SRV
+        else:
+            secrets = [d for d in rec['draws'] if len(d) == 16]
+            src = P_DRAW
+        posted = _server_ids_posted(rec['requests'])
+        trail = ' '.join(r['url'].rsplit('/', 1)[-1]
+                         for r in rec['requests']) or '(none)'
+        cl['posted: session service %s' % behaviour] += 1
+        if cps[:1] == (0xFEFF,):
+            cl['posted: ' + P_FEFF] += 1
+        if j >= 1 and hist[j - 1][1] != 'join204':
+            cl[P_REUSED] += 1
+        if len(posted) > 1:
+            cl['posted: more than one join in a login'] += 1
+        if cps == SENT_OFF and not posted:
+            cl['out:posted: offline id, nothing posted'] += 1
+            continue
+        if not secrets:
+            cl['out:posted: no secret known (not judged)'] += 1
+            continue
+        cl[src] += 1
+        wants = [ref.java_hex(hashlib.sha1(idb + s + der).digest())
+                 for s in secrets]
+        if not posted:
+            cl['out:posted: no hash posted'] += 1
+            ctx.violation(
+                'posted %s login %d nothing' % (htxt, j + 1),
+                'history %s (protocol %d): in %s no join request reached the '
+                'session service (requests: %s); expected serverId %r '
+                '(client errors %s)' % (htxt, version, who, trail,
+                                        wants[0], rec['errs']), case)
+            continue
+        bad = [(n, url, got, prob) for n, url, got, prob in posted
+               if prob is not None or type(got) is not str
+               or got not in wants]
+        if not bad:
+            cl['out:posted: every serverId = reference hash (%d join%s)'
+               % (len(posted), '' if len(posted) == 1 else 's')] += 1
+            continue
+        cl['out:posted: mismatch'] += 1
+        n, url, got, prob = bad[0]
+        which = [p[0] for p in posted].index(n) + 1
+        hint = prob or 'no simple explanation found'
+        if prob is None and isinstance(got, str):
+            for m, _, earlier, _ in posted:
+                if m < n and isinstance(earlier, str) and got == ref.java_hex(
+                        hashlib.sha1(b''.join(map(utf8, map(ord, earlier)))
+                                     + secrets[0] + der).digest()):
+                    hint = ('it is the hash of (the serverId posted by join '
+                            'request %d of this login, secret, key): the '
+                            'hash of a hash' % (m + 1))
+                    break
+            else:
+                h2 = explain(got, list(cps), secrets[0], der)
+                if not h2.startswith('no simple'):
+                    hint = h2
+        ctx.violation(
+            'posted %s login %d join %d' % (htxt, j + 1, which),
+            'history %s on one Connection object with a real '
+            'AuthenticationToken (protocol %d, scripted random source %d): '
+            'in %s the requests %s reached the session service; join request '
+            '%d of that login (%s) carried serverId %r; the secret of that '
+            'login is %s (%s), so Java BigInteger(sha1(utf8(id)+secret+key))'
+            '.toString(16) = %r (%d-byte key).  Hint: %s'
+            % (htxt, version, useed, who, trail, which, url, got,
+               secrets[0].hex(), src[8:], wants[0], len(der), hint), case)
+    return len(hist)
+
+
+def w_posted(ctx, task):
+    import collections
+    hist, version = task
+    cl = collections.Counter()
+    n = judge_posted(ctx, hist, version,
+                     posted_useed(ctx.seed, hist, version), cl)
+    cl['posted: history of %d login(s)' % len(hist)] += 1
+    flush(ctx, cl)
+    ctx.count(n)
+    ctx.note_distinct(n)
+    ctx.extra['posted_histories'] = 1
+    if (hist, version) == (((SENT_A, 'join403-refresh200-join204'),
+                            (SENT_A, 'join204')), 757):
+        ctx.sample({'part': 'posted', 'history': posted_text(hist),
+                    'protocol': version})
+
+
+def w_logins(ctx, task):
+    (w_sent if task[0] == 'sent' else w_posted)(ctx, task[1])
+
+
 def w_keys(ctx, task):
-    """The cached server keys must exist before the pool needs them."""
+    """The cached server keys must exist before the pool needs them; the
+    HTTP library of part 3 is imported once here (in the parent: this one
+    task runs in-process) instead of once per pool worker."""
     key_alphabet()
+    use_repo()
+    import requests.adapters            # noqa: F401
+    import urllib3                      # noqa: F401
+    import minecraft.authentication     # noqa: F401
 
 
 def w_sent(ctx, task):
@@ -869,22 +1302,29 @@ def run(ctx):
     ctx.pmap(w_ids, tasks, chunksize=16 if maxlen >= 3 else 1)
     # part 2: harness executions, only ever inside pool workers
     sent = sent_histories(ctx)
-    random.Random(ctx.seed + 1).shuffle(sent)
-    ctx.pmap(w_sent, sent, chunksize=4 if ctx.thorough else 1)
+    # part 3: the same with a real AuthenticationToken over a recording HTTP
+    # stand-in (one pool for both parts)
+    posted = posted_histories(ctx)
+    logins = [('sent', t) for t in sent] + [('posted', t) for t in posted]
+    random.Random(ctx.seed + 1).shuffle(logins)
+    ctx.pmap(w_logins, logins, chunksize=4 if ctx.thorough else 1)
     secrets = secrets_for(ctx.seed)
     n_ids = sum(N ** L for L in range(maxlen + 1))
-    n_sent = sum(len(h) for h, _, _ in sent)
+    n_posted = sum(len(h) for h, _ in posted)
+    n_sent = sum(len(h) for h, _, _ in sent) + n_posted
     expected = n_ids * len(secrets) * len(KEY_NAMES) + 2 * len(VECTORS) \
         + len(ORDER_CASES) + n_sent
     if ctx.evaluations != expected:
         raise ToolError('enumerated %d cases, expected %d'
                         % (ctx.evaluations, expected))
     vac = dict((label, int(ctx.classes.get(label, 0)))
-               for label in REQUIRED + SENT_REQUIRED)
+               for label in REQUIRED + SENT_REQUIRED + POSTED_REQUIRED)
     ctx.extra['vacuity_guard'] = vac
-    ctx.extra['sent_logins'] = n_sent
+    ctx.extra['sent_logins'] = n_sent - n_posted
+    ctx.extra['posted_logins'] = n_posted
     ctx.extra['sent_server_ids'] = [id_text(c) for c in (
-        SENT_A, SENT_B, SENT_EMPTY, SENT_OFF, sent_seed_id(ctx.seed))]
+        SENT_A, SENT_B, SENT_EMPTY, SENT_OFF, sent_seed_id(ctx.seed),
+        SENT_F)]
     ctx.extra['server_id_max_length'] = maxlen
     ctx.extra['server_ids'] = n_ids
     ctx.extra['alphabet'] = [id_text([c]) for c in ALPHA]
@@ -904,7 +1344,8 @@ def run(ctx):
         raise ToolError('vacuous enumeration: no case in class(es) %s'
                         % ', '.join(empty))
     unjudged = ctx.outcomes.get(
-        'sent: server recovered no secret (not judged)', 0)
+        'sent: server recovered no secret (not judged)', 0) + \
+        ctx.outcomes.get('posted: no secret known (not judged)', 0)
     if unjudged and not ctx.violations:
         raise ToolError('%d login(s) of the SENT part could not be judged: '
                         'the reference server recovered no secret' % unjudged)
@@ -925,6 +1366,14 @@ def replay(ctx, case):
                              int(case['useed']), cl,
                              [str(k) for k in case['encs']]
                              if case.get('encs') else None))
+        flush(ctx, cl)
+        return
+    if case['kind'] == 'posted':
+        hist = tuple((tuple(int(c) for c in cps), str(b))
+                     for cps, b in case['history'])
+        cl = collections.Counter()
+        ctx.count(judge_posted(ctx, hist, int(case['version']),
+                               int(case['useed']), cl))
         flush(ctx, cl)
         return
     cps = [int(c) for c in case['id_cp']]
